@@ -346,10 +346,25 @@ class Prop:
                         del rec["itraits"][comp]
                         rec["state"].pop(comp, None)
                         rec["touched"].discard(comp)
+                    elif comp is not None:
+                        # the companion trait was removed by hand before: remove_trait
+                        # still visits the name and drops a VALUE stored under it when the
+                        # class-level rule for it happens to be resolved already - a side
+                        # effect on the value, not on the governing rule; the stored value
+                        # is re-read from the object at the next access
+                        rec.setdefault("unknown", set()).add(comp)
                 env.end_op()
                 env.token("remove_trait")
                 continue
             rec["touched"].add(name)
+            if name in rec.get("unknown", ()):
+                rec["unknown"].discard(name)
+                cur = o.__dict__.get(name, UNSET)
+                if cur is UNSET:
+                    rec["state"].pop(name, None)
+                else:
+                    rec["state"][name] = cur
+                st = rec["state"].get(name, UNSET)
             # ---- expected outcome from the governing policy
             if k == "get":
                 if pol in ("event", "disallow", "itemsevent"):
